@@ -18,7 +18,11 @@ for m in muts:
     d = tempfile.mkdtemp(prefix='mut_', dir='/tmp')
     try:
         subprocess.run(['rsync', '-a', '--exclude', '.git', '/repo/', d + '/'], check=True)
-        for e in m['edits']:
+        if 'patch' in m:
+            r0 = subprocess.run(['patch', '-p1', '-s', '-i', os.path.join(ROOT, m['patch'])], cwd=d, capture_output=True, text=True)
+            if r0.returncode != 0:
+                print('MUTANT-STALE', m['id'], 'patch does not apply:', r0.stdout[-200:]); fail += 1; continue
+        for e in m.get('edits', []):
             p = os.path.join(d, e['file'])
             s = open(p).read()
             if s.count(e['old']) < 1:
